@@ -965,6 +965,9 @@ func ruleSER8(c *Ctx) {
 				if in == ssa.Instruction(rb.deferInstr) {
 					break
 				}
+				if _, isDefer := in.(*ssa.Defer); isDefer {
+					continue // runs at the end
+				}
 				if ci, isCall := in.(ssa.CallInstruction); isCall {
 					if f, _ := calleeOf(ci); f != nil && fnInModule(f) {
 						first = false
@@ -976,8 +979,11 @@ func ruleSER8(c *Ctx) {
 			} else {
 				why = "the barrier is installed after decoding has started"
 			}
+		} else if isBarrier(fn) {
+			// behind guard code that calls nothing of the module: every decoding call happens after the defer
+			ok = true
 		} else {
-			why = "the barrier is not installed in the entry block"
+			why = "the barrier is not installed before the first call of a module function"
 		}
 	}
 	c.Check(ok, "LoadKnowledgeBaseFromReader / recover barrier installed first and reports an error", p.Pos(fn.Pos()), "defer+recover in the entry block assigns the named error result", why)
